@@ -1,5 +1,9 @@
-/- driver ops for the Merkle-proof checks (Model/Proof.lean): chkproof, chkhdr, chkacct.
-DAG syntax as for `celldag` (Drv/Cell.lean); cells are evaluated once each into `PCell`s. -/
+/- driver ops for the Merkle-proof checks (Model/Proof.lean, Model/Locate.lean): chkproof, chkhdr, chkacct, locacct.
+DAG syntax as for `celldag` (Drv/Cell.lean); cells are evaluated once each into `PCell`s.
+`chkacct <dag> <roots> <blk hash> <addr> <state idx> [<badAcc> <badMc>]`: the last two arguments are `.`-separated representation
+hashes of the cells on which the library's `Account.deserialize` / `McStateExtra.deserialize` raise (the two sub-parsers the model
+keeps abstract, `Opaque`); omitted = both always return.  `locacct <dag> <state idx> <addr> <badAcc> <badMc>` answers
+`<hash of locateAccount's result | x> <hash of lookupShardAccount's result | x>`. -/
 import TonVerif.Drv.Common
 import TonVerif.Drv.Cell
 import TonVerif.Model.Proof
